@@ -16,8 +16,11 @@ import (
 	"strings"
 	"sync"
 
+	"net/http"
+
 	z "github.com/Oudwins/zog"
 	zi "github.com/Oudwins/zog/internals"
+	"github.com/Oudwins/zog/zhttp"
 )
 
 // ---------------------------------------------------------------------------
@@ -193,7 +196,38 @@ var (
 	schListTwo = z.Int().GT(5).LT(0)
 )
 
-var callKinds = []string{"plain", "ctxval", "probectx", "fail1", "fmtopt", "fail2", "coerce", "custom", "catch",
+// a call made from inside a user callback of another call (both executions are alive at once on one goroutine)
+var (
+	nestedSeen   = map[int64]string{}
+	nestedSeenMu sync.Mutex
+)
+
+func nestedFn(v any, ctx z.Ctx) bool {
+	var dd pdest
+	mm := schFail1.Parse(map[string]any{"a": 1}, &dd)
+	p, all := projIssues(mm)
+	if pt.on {
+		pt.ret(all)
+	}
+	nestedSeenMu.Lock()
+	nestedSeen[goid()] = p
+	nestedSeenMu.Unlock()
+	return false
+}
+
+var (
+	schNested     = z.Struct(z.Schema{"a": z.Int().TestFunc(nestedFn, z.Message("outer"))})
+	schNestedElem = z.Slice(z.Int().TestFunc(nestedFn, z.Message("outer-elem")))
+	schJSON       = z.Struct(z.Schema{"a": z.Int().GT(18), "b": z.Slice(z.Int())})
+)
+
+func jsonCall(body string, d *pdest) z.ZogIssueMap {
+	req, _ := http.NewRequest("POST", "http://x/", strings.NewReader(body))
+	req.Header.Set("Content-Type", "application/json")
+	return schJSON.Parse(zhttp.Request(req), d)
+}
+
+var callKinds = []string{"nested", "nestedelem", "badjson", "nulljson", "okjson", "plain", "ctxval", "probectx", "fail1", "fmtopt", "fail2", "coerce", "custom", "catch",
 	"vslice", "vptrcatch", "vptrnil", "pterr", "list2", "primcatch", "primcatchok", "stest", "pnotnil", "scoerce", "slicetest", "freshfail", "freshvalidate"}
 
 // a schema that is BUILT for the current episode and first used by the goroutines of that episode
@@ -234,6 +268,23 @@ func doCall(kind, tok string) callOut {
 		ctxSeenMu.Lock()
 		extra = ctxSeen[goid()]
 		ctxSeenMu.Unlock()
+	case "nested":
+		m = schNested.Parse(map[string]any{"a": 5}, &d)
+		nestedSeenMu.Lock()
+		extra = nestedSeen[goid()]
+		nestedSeenMu.Unlock()
+	case "nestedelem":
+		var s []int
+		m = schNestedElem.Parse([]any{7}, &s)
+		nestedSeenMu.Lock()
+		extra = nestedSeen[goid()] + fmt.Sprint(s)
+		nestedSeenMu.Unlock()
+	case "badjson":
+		m = jsonCall(`{"a":`, &d)
+	case "nulljson":
+		m = jsonCall(`null`, &d)
+	case "okjson":
+		m = jsonCall(`{"a": 3, "b": [1]}`, &d)
 	case "fail1":
 		m = schFail1.Parse(map[string]any{"a": 1}, &d)
 	case "fmtopt":
